@@ -1,4 +1,5 @@
 import RoaringModel.Lemmas.ContainerOps
+import RoaringModel.Lemmas.BitmapQuery
 import RoaringModel.Ops
 /-!
 # Bitmap level: the `Pairs` merge-join loops of ops.rs / cmp.rs against the set operations
@@ -12,10 +13,7 @@ namespace Bitmap
 /-! ### the abstraction `elems`, chunk by chunk -/
 
 theorem elems_nil : elems ([] : Bitmap) = [] := rfl
-theorem elems_cons (c : Container) (cs : Bitmap) : elems (c :: cs) = c.elems ++ elems cs := by
-  simp [elems]
-theorem elems_append (a b : Bitmap) : elems (a ++ b) = elems a ++ elems b := by
-  simp [elems]
+/-! `elems_cons`, `elems_append` are the core library's (`Lemmas/BitmapQuery.lean`). -/
 
 theorem mem_celems (c : Container) (hc : ∀ i ∈ c.store.elems, i < 65536) (y : Nat) :
     y ∈ c.elems ↔ y / 65536 = c.key ∧ y % 65536 ∈ c.store.elems := by
@@ -36,7 +34,7 @@ theorem key_of_mem_elems (K : BKernel) (b : Bitmap) (hb : StoresInv b) (y : Nat)
     ∃ c ∈ b, c.key = y / 65536 := by
   simp only [elems, List.mem_flatMap] at hy
   obtain ⟨c, hc, hyc⟩ := hy
-  exact ⟨c, hc, ((mem_celems c (Store.elems_lt K _ (hb c hc)) y).mp hyc).1.symm⟩
+  exact ⟨c, hc, ((mem_celems c (Store.elems_ltK K _ (hb c hc)) y).mp hyc).1.symm⟩
 
 /-- no element of a chunk-list lives under a key that is below all of its keys -/
 theorem not_mem_elems_of_key_lt (K : BKernel) (b : Bitmap) (hb : StoresInv b) (k y : Nat)
@@ -69,23 +67,23 @@ theorem storesInv_of_wf (b : Bitmap) (h : WF b) : StoresInv b :=
   fun c hc => Store.wf_inv _ (h.2 c hc).2
 
 /-- for well-formed bitmaps the element list is strictly ascending -/
-theorem sorted_elems (K : BKernel) : ∀ (b : Bitmap), WF b → Sorted (elems b)
+theorem sorted_elemsK (K : BKernel) : ∀ (b : Bitmap), WF b → Sorted (elems b)
   | [], _ => by simp [elems, Sorted]
   | c :: cs, h => by
     obtain ⟨hc, hk, hcs⟩ := wf_cons c cs h
-    have ih := sorted_elems K cs hcs
+    have ih := sorted_elemsK K cs hcs
     have hci := Store.wf_inv _ hc.2
     rw [elems_cons]
     unfold Sorted at *
     rw [List.pairwise_append]
     refine ⟨?_, ih, ?_⟩
-    · have hs := Store.sorted_elems K _ hci
+    · have hs := Store.sorted_elemsK K _ hci
       unfold Container.elems
       unfold Sorted at hs
       rw [List.pairwise_map]
       exact hs.imp (fun h => by omega)
     · intro x hx y hy
-      have hx' := (mem_celems c (Store.elems_lt K _ hci) x).mp hx
+      have hx' := (mem_celems c (Store.elems_ltK K _ hci) x).mp hx
       obtain ⟨d, hd, hdk⟩ := key_of_mem_elems K cs (storesInv_of_wf cs hcs) y hy
       have := hk d hd
       have h1 := Nat.div_add_mod x 65536
@@ -98,7 +96,7 @@ theorem mem_elems_head (K : BKernel) (c : Container) (cs : Bitmap) (hc : c.store
     (hk : ∀ d ∈ cs, c.key < d.key) (y : Nat) :
     y ∈ elems (c :: cs) ↔
       (y / 65536 = c.key ∧ y % 65536 ∈ c.store.elems) ∨ (¬ y / 65536 = c.key ∧ y ∈ elems cs) := by
-  rw [elems_cons, List.mem_append, mem_celems c (Store.elems_lt K _ hc) y]
+  rw [elems_cons, List.mem_append, mem_celems c (Store.elems_ltK K _ hc) y]
   by_cases hy : y / 65536 = c.key
   · have := not_mem_elems_of_key_lt K cs hcs c.key y hk hy
     simp [hy, this]
@@ -365,7 +363,7 @@ theorem pairsOp_elems_eq (K : BKernel) {P : Prop → Prop → Prop} {kl kr chk :
     (hspec : ∀ y, y ∈ spec ↔ P (y ∈ elems a) (y ∈ elems b)) :
     WF (pairsOp kl kr chk f a b) ∧ elems (pairsOp kl kr chk f a b) = spec := by
   obtain ⟨hw, _, hm⟩ := pairsOp_loopInv K S a b ha hb
-  exact ⟨hw, sorted_ext_local _ _ (sorted_elems K _ hw) hs (fun y => by rw [hm y, hspec y])⟩
+  exact ⟨hw, Arr.sorted_ext _ _ (sorted_elemsK K _ hw) hs (fun y => by rw [hm y, hspec y])⟩
 
 /-! ### the instances -/
 
